@@ -255,6 +255,30 @@ MUTANTS += [
     ("c17-logit-not-inverse-sigmoid", ["C17"], [(NL, "class Logit(InverseTransform):\n    def __init__(self, temperature=1, eps=1e-6):\n        super().__init__(Sigmoid(temperature=temperature, eps=eps))", "class Logit(Sigmoid):\n    def __init__(self, temperature=1, eps=1e-6):\n        super().__init__(temperature=temperature, eps=eps)")], "DOM-GUARD"),
 ]
 
+TCK = "nflows/utils/typechecks.py"
+MUTANTS += [
+    # ---- C20 ----
+    ("c20-searchsorted-inplace", ["C20"], [(TU, "    bin_locations = bin_locations.clone()\n", "")], "UT-PURE"),
+    ("c20-searchsorted-gt", ["C20"], [(TU, "return torch.sum(inputs[..., None] >= bin_locations, dim=-1) - 1", "return torch.sum(inputs[..., None] > bin_locations, dim=-1) - 1")], "UT-SEARCH"),
+    ("c20-searchsorted-eps-all", ["C20"], [(TU, "    bin_locations[..., -1] += eps\n", "    bin_locations += eps\n")], "UT-SEARCH"),
+    ("c20-searchsorted-no-minus", ["C20"], [(TU, "return torch.sum(inputs[..., None] >= bin_locations, dim=-1) - 1", "return torch.sum(inputs[..., None] >= bin_locations, dim=-1)")], "UT-SEARCH"),
+    ("c20-repeat-rows-tile", ["C20"], [(TU, "    shape = x.shape\n    x = x.unsqueeze(1)\n    x = x.expand(shape[0], num_reps, *shape[1:])\n    return merge_leading_dims(x, num_dims=2)", "    return x.repeat(num_reps, *([1] * (x.dim() - 1)))")], "UT-RESHAPE"),
+    ("c20-repeat-rows-axis", ["C20"], [(TU, "    x = x.unsqueeze(1)\n    x = x.expand(shape[0], num_reps, *shape[1:])", "    x = x.unsqueeze(0)\n    x = x.expand(num_reps, shape[0], *shape[1:])")], "UT-RESHAPE"),
+    ("c20-sum-except-batch-range", ["C20"], [(TU, "reduce_dims = list(range(num_batch_dims, x.ndimension()))", "reduce_dims = list(range(num_batch_dims + 1, x.ndimension()))")], "UT-RESHAPE"),
+    ("c20-merge-permute", ["C20"], [(TU, "    new_shape = torch.Size([-1]) + x.shape[num_dims:]\n    return torch.reshape(x, new_shape)", "    new_shape = torch.Size([-1]) + x.shape[num_dims:]\n    return torch.reshape(x.transpose(0, 1), new_shape)")], "UT-RESHAPE"),
+    ("c20-tile-layout", ["C20"], [(TU, "    x_ = x_.reshape(n, -1)\n    x_ = x_.transpose(1, 0)\n    x_ = x_.reshape(-1)\n    return x_", "    return x_")], "UT-TILE"),
+    ("c20-alt-mask-start", ["C20"], [(TU, "    start = 0 if even else 1", "    start = 1 if even else 0")], "UT-MASK"),
+    ("c20-mid-mask-floor", ["C20"], [(TU, "    midpoint = features // 2 if features % 2 == 0 else features // 2 + 1", "    midpoint = features // 2")], "UT-MASK"),
+    ("c20-random-mask-replacement", ["C20"], [(TU, "        input=weights, num_samples=num_samples, replacement=False", "        input=weights, num_samples=num_samples, replacement=True")], "UT-MASK"),
+    ("c20-positive-int-ge", ["C20"], [(TCK, "    return is_int(x) and x > 0", "    return is_int(x) and x >= 0")], "UT-PRED"),
+    ("c20-pow2", ["C20"], [(TCK, "        return not n & (n - 1)", "        return not n & (n + 1)")], "UT-PRED"),
+    ("c20-tile-no-validation", ["C20"], [(TU, "    if not check.is_positive_int(n):\n        raise TypeError(\"Argument 'n' must be a positive integer.\")\n", "")], "UT-PRED"),
+    ("c20-cbrt-no-sign", ["C20"], [(TU, "    return torch.sign(x) * torch.exp(torch.log(torch.abs(x)) / 3.0)", "    return torch.exp(torch.log(torch.abs(x)) / 3.0)")], "UT-FORM"),
+    ("c20-logabsdet-sign-component", ["C20"], [(TU, "    _, res = torch.slogdet(x)\n    return res", "    res, _ = torch.slogdet(x)\n    return res")], "UT-FORM"),
+    ("c20-kde-eye", ["C20"], [(TU, "    precision = (1 / (std ** 2)) * torch.eye(\n        D, dtype=samples.dtype, device=samples.device\n    )", "    precision = (1 / (std ** 2)) * torch.eye(D)")], "UT-DTYPE"),
+    ("c20-split-mutates-shape", ["C20"], [(TU, "    new_shape = torch.Size(shape) + x.shape[1:]\n    return torch.reshape(x, new_shape)", "    x *= 1\n    new_shape = torch.Size(shape) + x.shape[1:]\n    return torch.reshape(x, new_shape)")], "UT-PURE"),
+]
+
 BENIGN = [
     ("b-c06-rename-local", ["C06"], [(MADE1, "        prev_out_degrees = self.initial_layer.degrees\n        for _ in range(num_blocks):", "        prev_out_degrees = self.initial_layer.degrees\n        for _blk in range(num_blocks):")]),
     ("b-c06-guard-form", ["C06"], [(MADE1, "if torch.all(self.degrees >= in_degrees).item() != 1:", "if not torch.all(in_degrees <= self.degrees):")]),
@@ -292,5 +316,7 @@ BENIGN = [
     ("b-c17-guard-method-form", ["C17"], [(NL, "        if torch.min(inputs) <= 0.:", "        if inputs.min() <= 0:")]),
     ("b-c17-guard-swapped", ["C17"], [(SL, "    if torch.min(inputs) < left or torch.max(inputs) > right:", "    if right < torch.max(inputs) or left > torch.min(inputs):")]),
     ("b-c09-rename-locals", ["C09", "C17"], [(SR, "    cumwidths = torch.cumsum(widths, dim=-1)\n    cumwidths = F.pad(cumwidths, pad=(1, 0), mode=\"constant\", value=0.0)\n    cumwidths = (right - left) * cumwidths + left\n    cumwidths[..., 0] = left\n    cumwidths[..., -1] = right\n    widths = cumwidths[..., 1:] - cumwidths[..., :-1]", "    xk = torch.cumsum(widths, dim=-1)\n    xk = F.pad(xk, pad=(1, 0), mode=\"constant\", value=0.0)\n    xk = (right - left) * xk + left\n    xk[..., 0] = left\n    xk[..., -1] = right\n    cumwidths = xk\n    widths = cumwidths[..., 1:] - cumwidths[..., :-1]")]),
+    ("b-c20-repeat-interleave", ["C20"], [(TU, "    shape = x.shape\n    x = x.unsqueeze(1)\n    x = x.expand(shape[0], num_reps, *shape[1:])\n    return merge_leading_dims(x, num_dims=2)", "    return x.repeat_interleave(num_reps, dim=0)")]),
+    ("b-c20-ceil-spelling", ["C20"], [(TU, "    midpoint = features // 2 if features % 2 == 0 else features // 2 + 1", "    midpoint = (features + 1) // 2")]),
     ("b-c14-guard-order", ["C14"], [(NORM, "if self.training and not self.initialized:", "if not self.initialized and self.training:")]),
 ]
